@@ -367,6 +367,17 @@ fn expr(e: &Expr) -> J {
         Expr::Tuple(x) if x.attrs.is_empty() => obj! {"e": "tuple", "elems": exprs(&x.elems)},
         Expr::Array(x) if x.attrs.is_empty() => obj! {"e": "array", "elems": exprs(&x.elems)},
         Expr::Try(x) if x.attrs.is_empty() => obj! {"e": "try", "x": expr(&x.expr)},
+        Expr::Let(x) if x.attrs.is_empty() => obj! {"e": "let", "pat": pat(&x.pat), "x": expr(&x.expr)},
+        Expr::Closure(x)
+            if x.attrs.is_empty()
+                && x.lifetimes.is_none()
+                && x.constness.is_none()
+                && x.movability.is_none()
+                && x.asyncness.is_none()
+                && matches!(x.output, syn::ReturnType::Default) =>
+        {
+            obj! {"e": "closure", "move": x.capture.is_some(), "params": arr(&x.inputs, pat), "body": expr(&x.body)}
+        }
         _ => other(),
     }
 }
@@ -408,6 +419,7 @@ fn pat(p: &Pat) -> J {
             obj! {"p": "tuple_struct", "path": segs(&x.path, true), "elems": arr(&x.elems, pat)}
         }
         Pat::Or(x) if x.attrs.is_empty() => obj! {"p": "or", "cases": arr(&x.cases, pat)},
+        Pat::Tuple(x) if x.attrs.is_empty() => obj! {"p": "tuple", "elems": arr(&x.elems, pat)},
         Pat::Range(_) => obj! {"p": "range", "tokens": spaced(p)},
         _ => obj! {"p": "other", "tokens": spaced(p)},
     }
@@ -422,7 +434,7 @@ fn block(b: &Block) -> J {
 fn stmt(s: &Stmt) -> J {
     let other = || obj! {"s": "other", "tokens": spaced(s)};
     match s {
-        Stmt::Local(l) => local(l).unwrap_or_else(other),
+        Stmt::Local(l) => local(l).or_else(|| local_pat(l)).unwrap_or_else(other),
         Stmt::Item(Item::Const(c))
             if c.attrs.is_empty()
                 && matches!(c.vis, Visibility::Inherited)
@@ -454,6 +466,24 @@ fn local(l: &Local) -> Option<J> {
         None => None,
     };
     Some(obj! {"s": "let", "name": name, "ty": t, "init": init})
+}
+
+/// `let <pattern> = e;` with a tuple pattern or `mut` binding (read by the source-slice translator only; the
+/// expansions of the macro never contain one).
+fn local_pat(l: &Local) -> Option<J> {
+    if !l.attrs.is_empty() {
+        return None;
+    }
+    let (p, t) = match &l.pat {
+        Pat::Type(pt) if pt.attrs.is_empty() => (pat(&pt.pat), Some(ty(&pt.ty))),
+        p => (pat(p), None),
+    };
+    let init = match &l.init {
+        Some(i) if i.diverge.is_some() => return None,
+        Some(i) => Some(expr(&i.expr)),
+        None => None,
+    };
+    Some(obj! {"s": "letpat", "pat": p, "ty": t, "init": init})
 }
 
 // --------------------------------------------------------------- items ----
